@@ -418,3 +418,6 @@ CORPUS += [
 CORPUS += [
     V("C12", "log-likelihood-renormalised-before-the-gather", _DEC, "    if actions is not None and logprobs.dim() == 3:\n        logprobs = logprobs.gather", "    if actions is not None and logprobs.dim() == 3:\n        logprobs = logprobs.log_softmax(dim=-1)\n        logprobs = logprobs.gather", "C12.h"),
 ]
+CORPUS += [
+    V("C02", "mtvrp-limit-checked-one-way", _MG, "            dist_to_depot * 2 < self.distance_limit  # go back and forth", "            dist_to_depot < self.distance_limit", "C02.m"),
+]
